@@ -399,7 +399,7 @@ func (e *Explorer) process(solver *smt.Solver, it *item) ([]*item, error) {
 		if ok {
 			for k, s := range it.expect {
 				r := res.Path[k]
-				if r.Instr != s.instr || r.Taken != s.taken || r.Kind != s.kind {
+				if r.Instr != s.instr || r.Taken != s.taken {
 					ok = false
 					break
 				}
@@ -410,7 +410,7 @@ func (e *Explorer) process(solver *smt.Solver, it *item) ([]*item, error) {
 				for k, s := range it.expect {
 					if k < len(res.Path) {
 						r := res.Path[k]
-						if r.Instr == s.instr && r.Taken == s.taken && r.Kind == s.kind {
+						if r.Instr == s.instr && r.Taken == s.taken {
 							continue
 						}
 						fmt.Fprintf(os.Stderr, "  DIV %d: expect %s %v %v | got %s %v %v %s\n", k, instrSite(e.P.Prog, s.instr), s.taken, s.kind, instrSite(e.P.Prog, r.Instr), r.Taken, r.Kind, r.Cond)
